@@ -16,8 +16,13 @@ pub fn parse_into(base: &StateSpec, text: &str) -> Result<StateSpec, (String, St
     r.map(|_| StateSpec::snapshot(&st))
 }
 
+/// registered = spelled exactly like one of the names the registry lists (the implementation's
+/// own is_instruction() is what is being checked, so it is not asked)
 pub fn is_registered(tok: &str) -> bool {
-    with_machine(|m| m.iset.is_instruction(tok))
+    thread_local! {
+        static NAMES: std::collections::HashSet<String> = crate::exec::registry_names().into_iter().collect();
+    }
+    NAMES.with(|n| n.contains(tok))
 }
 /// A token the documented lexical rules classify as a NAME.
 pub fn is_name_token(tok: &str) -> bool {
@@ -40,6 +45,20 @@ pub fn name_token() -> BoxedStrategy<String> {
         4 => prop::sample::select(gen::NAME_POOL.to_vec()).prop_map(|s| s.to_string()),
         4 => "[A-Za-z_][A-Za-z0-9_.*+<>=/%-]{0,8}",
         1 => "[a-zé∑λ][a-z0-9é∑]{0,4}",
+        // spelled like a registered instruction up to letter case: a name
+        1 => (prop::sample::select(crate::exec::registry_names()), 0u8..3).prop_map(|(n, how)| match how {
+            0 => n.to_lowercase(),
+            1 => n.chars().enumerate().map(|(i, c)| if i % 2 == 0 { c.to_ascii_lowercase() } else { c }).collect(),
+            _ => {
+                let mut c = n.chars();
+                match c.next() {
+                    Some(f) => f.to_string() + &c.as_str().to_lowercase(),
+                    None => n,
+                }
+            }
+        }),
+        // long tokens (around and beyond 255 bytes), with a multi-byte character near byte 255
+        1 => (236usize..262, 0usize..60, prop::sample::select(vec!["", "é", "∑", "𝛌"])).prop_map(|(k, m, mid)| format!("{}{}{}", "a".repeat(k), mid, "b".repeat(m))),
         1 => prop::sample::select(vec!["true", "false", "True", "INT", "FLOAT[", "e5", "-", "+", ".", "1e", "0x10", "1_000", "INTEGER", "INTEGER.", "integer.+", "()", "(a", "b)", "[1,2]", "1,2", "TRUE1"]).prop_map(|s| s.to_string()),
     ]
     .prop_filter("must be a name token", |s| is_name_token(s))
